@@ -40,13 +40,21 @@ Section ValueJson.
     end.
 
   (* json.Unmarshal into struct{Fn, Arg string}: members must be strings (or absent/null = ""), else a decode error *)
-  Definition str_field (k : str) (l : list (str * json)) : option str :=
-    match jget k l with
-    | None => Some []
-    | Some JNull => Some []
-    | Some (JStr s) => Some s
-    | Some _ => None
+  (* the members are processed in document order: a string sets the field, null leaves it as it is, anything else is an error
+     (so of several members with the same key the last STRING wins) *)
+  Fixpoint str_field_from (k : str) (l : list (str * json)) (cur : str) : option str :=
+    match l with
+    | [] => Some cur
+    | (k', v) :: r =>
+        if str_eqb k' k then
+          match v with
+          | JStr s => str_field_from k r s
+          | JNull => str_field_from k r cur
+          | _ => None
+          end
+        else str_field_from k r cur
     end.
+  Definition str_field (k : str) (l : list (str * json)) : option str := str_field_from k l [].
 
   (* the "__extn" probe: Some (Some (fn,arg)) = usable extension object; Some None = not an extension; None = cannot happen *)
   Definition extn_probe (j : json) : option (str * str) :=
